@@ -101,7 +101,12 @@ func systemGenOther(c *Ctx, w *trace.Writer, tmp string) {
 		if c.Thorough() {
 			filepath.Walk(filepath.Join(repoDir(), "gameboy", "testdata"), func(p string, info os.FileInfo, err error) error {
 				if err == nil && !info.IsDir() && strings.HasSuffix(p, ".gb") && info.Size() > 0x150 {
-					roms = append(roms, p)
+					// only images the emulator accepts: a file whose header contradicts its size (bootrom_dumper.gb)
+					// is refused by the constructor, which is C11's subject, not a question of determinism
+					img, rerr := os.ReadFile(p)
+					if rerr == nil && machine.Try(func() { machine.New(img, machine.Options{NoCPU: true}) }) == "" {
+						roms = append(roms, p)
+					}
 				}
 				return nil
 			})
